@@ -963,7 +963,7 @@ def _full_forward_drain(f, n):
         if par is None:
             return False
         if par.get("k") == "MethodCall" and hir.peel(par["recv"]) is hir.peel(cur):
-            if par["method"] in ("map", "inspect", "enumerate", "by_ref", "into_iter"):
+            if par["method"] in ("map", "inspect", "enumerate", "by_ref", "into_iter", "chain"):
                 cur = par
                 continue
             return par["method"] in ("collect", "for_each", "count")
@@ -1751,8 +1751,12 @@ def rule_optchain_link_flag(check):
     check.rule(R, "in the lowering helpers of the optional-chain visitor (the functions that build the replacement call / member), an OptChainExpr is never taken apart (`.base`, or the payload of an `Expr::OptChain(..)` pattern) without its `optional` flag being read in the same function: nested links are left to the visitor's own dispatch, which handles the flag")
     prog = check.prog
     n_fn = 0
+    # the functions of the chain visitor and the free helpers of its module (whatever the lowering is split into)
+    vis = [g for g in prog.user_fns if (g.rec.get("self_ty") or "").split("<")[0].endswith("OptChainVisitor")]
+    mods = {hir.loc(g.rec).split(":")[0] for g in vis}
     for g in prog.user_fns:
-        if g.body is None or g.rec.get("gen") or not (g.rec.get("self_ty") or "").split("<")[0].endswith("OptChainVisitor"):
+        in_scope = (g.rec.get("self_ty") or "").split("<")[0].endswith("OptChainVisitor") or (not g.rec.get("self_ty") and hir.loc(g.rec).split(":")[0] in mods)
+        if g.body is None or g.rec.get("gen") or g.rec.get("in_test") or not in_scope:
             continue
         builder = not (g.name or "").startswith("visit_") and (g.rec.get("ret") or "()").strip() not in ("bool", "()")
         if not builder:
@@ -2377,6 +2381,17 @@ def rule_input_untouched(check):
                             refilled = True
                 if refilled and not [x for x in f.nodes() if hir.is_call(x) and hir.callee_name(x) == "not_modified"]:
                     check.ok(R, "%s/%s/take-refill" % (R, f.name), hir.loc(n), "the part is taken out and the slot it came from is overwritten with the value built around it, on the same path (an in-place rewrite that cannot decline)")
+                    continue
+            if n["method"] in ("take", "drain"):
+                # every declining answer lies behind: all `not_modified()` exits are early returns that come
+                # before the part is taken, and the taking is not repeated (no loop, no closure)
+                order2_ = {x["id"]: i_ for i_, x in enumerate(f.nodes())}
+                nms_ = [x for x in f.nodes() if hir.is_call(x) and hir.callee_name(x) == "not_modified"]
+                early = bool(nms_) and all(order2_.get(x["id"], 1 << 30) < order2_.get(n["id"], -1) and any(a_.get("k") == "Ret" for a_ in f.ancestors(x)) for x in nms_)
+                repeated = any(a_.get("k") in ("Loop", "Closure") for a_ in f.ancestors(n))
+                param_root = b["origin"][0] == "param" if b else False
+                if early and not repeated and param_root and n["method"] == "take":
+                    check.ok(R, "%s/%s/take-after-last-decline" % (R, f.name), hir.loc(n), "the part is taken only after the last point at which the function can still answer `not modified`")
                     continue
             if n["method"] == "drain":
                 # `x.elems = x.elems.drain(..).map(f).collect()`: every element is put back, in order
